@@ -138,6 +138,54 @@ def check_layout_predicates(res, L, rng, tag, light=False):
             res.violate('v*v is not the quadratic form of the signature', dict(site, v=coef), (v * v).value.tolist(), q, site)
 
 
+def check_legacy_constructor(res, rng):
+    """the deprecated `Layout(sig, bladeTupList, firstIdx)` constructor: every blade named by the id tuple (i1..ik) it was given is the
+    ordered product of those basis vectors; a tuple whose order is an odd permutation of the storage order cannot be represented
+    (no sign flips in storage) and must be refused, never accepted with the sign dropped"""
+    import itertools
+    import warnings
+    import numpy as np
+    from clifford import Layout
+    for n in (2, 3, 4):
+        for first in (1, 0):
+            sig = gen.random_signature(rng, n)
+            idv = list(range(first, first + n))
+            canon = [t for k in range(n + 1) for t in itertools.combinations(idv, k)]
+            variants = [('canonical', list(canon))]
+            sh = list(canon)
+            rng.shuffle(sh)
+            variants.append(('shuffled-order', [tuple(t) for t in sh]))
+            if n >= 3:
+                ev = [t if len(t) != 3 else (t[1], t[2], t[0]) for t in canon]        # even permutation inside the 3-blades
+                variants.append(('even-permuted', ev))
+            od = [t if len(t) != 2 else (t[1], t[0]) for t in canon]                  # odd permutation inside the 2-blades
+            variants.append(('odd-permuted', od))
+            for vname, tups in variants:
+                site = dict(sig=[int(x) for x in sig], firstIdx=first, variant=vname)
+                res.case(('legacy', n, first, vname, str(tups)), nontrivial=True)
+                res.count('legacy_' + vname)
+                try:
+                    with warnings.catch_warnings():
+                        warnings.simplefilter('ignore')
+                        L = Layout(list(sig), tups, firstIdx=first)
+                except NotImplementedError:
+                    if vname != 'odd-permuted':
+                        res.violate('the legacy constructor refuses a representable blade list', dict(site, tuples=[list(t) for t in tups]), 'NotImplementedError', 'a Layout',
+                                    dict(site, op='legacy-refused'))
+                    continue
+                E = L.basis_vectors_lst
+                one = 1 + 0 * E[0]
+                for t, name in zip(tups, L.names):
+                    prod = one
+                    for i_ in t:
+                        prod = prod * E[i_ - first]
+                    if not np.array_equal(L.blades[name].value if name in L.blades else np.zeros(L.gaDims), prod.value) and t:
+                        res.violate('legacy constructor: the blade named by the id tuple (i1..ik) is not the ordered product of those basis vectors',
+                                    dict(site, tuple=list(t), name=name), L.blades[name].value.tolist() if name in L.blades else None, prod.value.tolist(),
+                                    dict(site, op='legacy-blade'))
+                        break
+
+
 def check_signature_array(res, rng):
     """an algebra built from an explicit signature *array* is the algebra of the signature it was given: what the caller does to the
     array afterwards (before or after the first product) changes neither the products nor `layout.sig`"""
@@ -225,6 +273,7 @@ def run_job(job, tier, seed):
         for tag, L in layouts:
             common.gcall(res, check_layout_predicates, L, rng, tag, light=(L.gaDims > 64 and tier == 'quick'))
         common.gcall(res, check_signature_array, rng)
+        common.gcall(res, check_legacy_constructor, rng)
         # predefined algebra modules: documented signature, table, predicates
         pre = []
         for name, (attr, sig) in real.PREDEFINED.items():
